@@ -43,6 +43,21 @@ Definition enc_znwels (r : list (Z * nw_el)) : val := VList (map (fun ze => VLis
 (* the iteration order of the Python set of cartesian letters is an input: the letters of l in the order of `order` *)
 Definition sord_of (order : list string) (l : list string) : list string :=
   filter (fun x => existsb (String.eqb x) l) order ++ filter (fun x => negb (existsb (String.eqb x) order)) l.
+Fixpoint sord_tab (tab : list (list string * list string)) (l : list string) : list string :=
+  match tab with
+  | [] => l
+  | (i, o) :: t => if list_eq_dec string_dec i l then o else sord_tab t l
+  end.
+(* the iteration order of Python's set of cartesian letters: either one global order (list of letters) or, exact for any hash
+   seed, a table from the letters in insertion order to the order in which the set yielded them (read off the written text) *)
+Definition dec_sord (v : val) : res (list string -> list string) :=
+  do l <- as_list v;
+  match l with
+  | VList _ :: _ =>
+      do ps <- mapM (fun x => match x with VList [a; b] => do i <- dec_strs a; do o <- dec_strs b; ok (i, o) | _ => fail EDecode end) l;
+      ok (sord_tab ps)
+  | _ => do o <- dec_strs v; ok (sord_of o)
+  end.
 Definition dec_mels (v : val) : res (list (Z * mel)) :=
   do l <- as_list v;
   mapM (fun x => match x with
@@ -100,15 +115,15 @@ Definition ops_formats (op : string) (args : list val) : option (res val) :=
   | "bdf_write_all", [els; ecps] => Some (do e <- dec_zshells els; do c <- dec_zecps ecps; do t <- bdf_write_all e c; ok (VStr t))
   | "d2k_write_all", [VBool sph; VStr name; els; ecps] => Some (do e <- dec_zeshells els; do c <- dec_zecps ecps; do t <- d2k_write_all sph name e c; ok (VStr t))
   | "d2k_read_all", [ls] => Some (do l <- dec_strs ls; do r <- d2k_read_all l; ok (enc_znwels r))
-  | "ricd_write_all", [order; els] => Some (do o <- dec_strs order; do e <- dec_mels els;
-                                           do t <- ricdwrap_write_all (sord_of o) (map (fun ze => (fst ze, fst (snd ze))) e); ok (VStr t))
+  | "ricd_write_all", [order; els] => Some (do so <- dec_sord order; do e <- dec_mels els;
+                                           do t <- ricdwrap_write_all so (map (fun ze => (fst ze, fst (snd ze))) e); ok (VStr t))
   | "crystal_write_all", [els] => Some (do e <- dec_mels els; do t <- crystal_write_all e; ok (VStr t))
   | "acesii_write_all", [VStr name; VStr desc; els; ecps] =>
       Some (do e <- dec_zshells els; do c <- dec_zecps ecps; do t <- acesii_write_all name desc e c; ok (VStr t))
-  | "mcas_write_all", [order; els] => Some (do o <- dec_strs order; do e <- dec_mels els; do t <- mcas_write_all (sord_of o) e; ok (VStr t))
+  | "mcas_write_all", [order; els] => Some (do so <- dec_sord order; do e <- dec_mels els; do t <- mcas_write_all so e; ok (VStr t))
   | "mcasl_write_all", [order; VStr name; metas; els] =>
-      Some (do o <- dec_strs order; do ms <- dec_metas metas; do e <- dec_mels els;
-            do t <- mcasl_write_all (sord_of o) name (meta_of ms) e; ok (VStr t))
+      Some (do so <- dec_sord order; do ms <- dec_metas metas; do e <- dec_mels els;
+            do t <- mcasl_write_all so name (meta_of ms) e; ok (VStr t))
   | "mcas_read_all", [ls] => Some (do l <- dec_strs ls; do r <- mcas_read_all l;
                                    ok (VList [VList (map (fun ze => VList [VInt (fst ze); enc_mc_eld (snd ze)]) (fst r)); VStr (snd r)]))
   | "g94_write_electron", [els] => Some (do e <- dec_zshells els; do t <- g94_write_electron e; ok (VStr t))
